@@ -390,7 +390,37 @@ class Engine:
         self.note(kind, str(r), dt)
         if r == z3.unknown:
             raise Inconclusive('solver unknown (%s) in %s' % (self.solver.reason_unknown(), kind))
+        if self.cross_every and kind in ('result-differs', 'unexplained-by-known', 'invocations-differ'):
+            self.cross_seen += 1
+            if self.cross_seen % self.cross_every == 1:
+                self.cross_check(extra, r == z3.sat)
         return r == z3.sat
+
+    cross_every = 0
+    cross_seen = 0
+    cross_done = 0
+
+    def cross_check(self, extra, mine):
+        """the same query (path condition + negated result equality) as SMT-LIB2 on cvc5 and z3 4.8.12"""
+        import subprocess
+        s2 = z3.Solver()
+        for a in self.solver.assertions():
+            s2.add(a)
+        for e in extra:
+            s2.add(e)
+        text = '(set-logic ALL)\n' + s2.sexpr() + '\n(check-sat)\n'
+        for cmd in (['cvc5', '--lang', 'smt2'], ['/usr/bin/z3', '-in']):
+            try:
+                p = subprocess.run(cmd, input=text, stdout=subprocess.PIPE, stderr=subprocess.STDOUT, text=True, timeout=120)
+            except subprocess.TimeoutExpired:
+                raise Inconclusive('second solver %s timed out on a path query' % cmd[0])
+            out = p.stdout.strip().split('\n')[-1] if p.stdout.strip() else ''
+            if '(error' in p.stdout or out not in ('sat', 'unsat'):
+                raise Inconclusive('second solver %s: %r' % (cmd[0], p.stdout[:200]))
+            if (out == 'sat') != mine:
+                raise Inconclusive('solvers disagree on a path query: z3 %s, %s %s' % ('sat' if mine else 'unsat', cmd[0], out))
+            self.note('cross-' + cmd[0].split('/')[-1], out, 0.0)
+        self.cross_done += 1
 
     def explore(self, program, base_constraints):
         """program(engine) is run once per path; it calls decide(). Yields whatever program returns,
